@@ -18,7 +18,8 @@ KINDS = {
             'address-balance-missing', 'address-balance-extra', 'address-balance-differs', 'use-wallet', 'api-error',
             'died', 'timeout', 'step-error'],
     'C09': ['utxo-sbu', 'deposit-sbu', 'pending-deposit-missing', 'pending-deposit-extra', 'pending-deposit-differs',
-            'pending-set', 'pending-unreadable', 'selected-pending-spent', 'died', 'timeout', 'step-error'],
+            'pending-set-missing', 'pending-set-extra', 'pending-unreadable', 'pending-not-settled', 'selected-pending-spent',
+            'died', 'timeout', 'step-error'],
     'C10': ['deposit-missing', 'deposit-extra', 'deposit-differs', 'binding-target', 'balance-wstaking',
             'balance-wbinding', 'balance-spendable', 'withdraw-sequence', 'withdraw-boundary', 'died', 'timeout', 'step-error'],
     'C12': ['address-used', 'address-not-listed', 'died', 'timeout', 'step-error'],
@@ -37,13 +38,28 @@ def replay_jobs(scratch, jobs, race=False):
     return vlib.run_children(binary, args, len(jobs), scratch)
 
 
-def regress_jobs(pid):
+def regress_jobs(pid, scratch):
+    """Regression histories are stored as action scripts; TLC follows the script (Gen.tla, Script)
+    and recomputes the expected views with the CURRENT specification."""
     out = []
     for p in sorted(glob.glob(os.path.join(vlib.ROOT, 'regress', '*.json'))):
         r = json.load(open(p))
-        if pid in r.get('properties', [r.get('property')]):
-            out.append(dict(u=r['universe'], h=r['history'], mode=r.get('mode', ''), opt=r.get('opt', {}),
-                            src='regress/' + os.path.basename(p)))
+        if pid not in r.get('properties', []):
+            continue
+        th = r['theme']
+        base = th['module'][:-4]
+        script = vlib.tla(r['actions'])
+        mod = '---- MODULE MC_Reg ----\nEXTENDS %s\nRegScript == %s\n====\n' % (base, script)
+        ov = dict(th.get('overrides', {}))
+        ov.update({'GenDepth': str(len(r['actions'])), 'Script': '<- RegScript', 'GenForkLen': '3', 'GenForkDepth': '9', 'GenPending': 'TRUE'})
+        t = vlib.tlc(th['cfg'], 'MC_Reg.tla', scratch, overrides=ov, extra_files={'MC_Reg.tla': mod}, workers=2, timeout=300)
+        vlib.require_clean(t, 'regression script %s' % os.path.basename(p))
+        if len(t['histories']) != 1:
+            raise Infra('regression script %s: the specification admits %d behaviours for it (expected 1)\n%s' % (os.path.basename(p), len(t['histories']), t['log'][-1500:]))
+        uni = dict(t['universe'])
+        uni.update(th.get('universe_extra', {}))
+        out.append(dict(u=uni, h=json.loads(t['histories'][0]), mode=r.get('mode', ''), opt=r.get('opt', {}),
+                        src='regress/' + os.path.basename(p)))
     return out
 
 
@@ -61,24 +77,53 @@ def kinds_of(res):
     return ['step-error']
 
 
+def pending_blame(job):
+    """tx ids whose presence in the pending set is explained by an announcement accepted
+    'stale' or 'ahead' (see spec/Gen.tla AcceptedHow), transitively through pending parents."""
+    how = {}
+    for s in job['h']:
+        if s['a'] == 'HandleTx' and s.get('acc'):
+            how[s['t']] = s.get('why', 'ok')
+    ins = job['u'].get('txins', {})
+    blamed = {}
+
+    def walk(t, seen):
+        if t in blamed:
+            return blamed[t]
+        if t in seen:
+            return None
+        seen = seen | {t}
+        r = how.get(t) if how.get(t) in ('stale', 'ahead') else None
+        if r is None:
+            for op in ins.get(t, []):
+                r = walk(op[0], seen)
+                if r:
+                    break
+        blamed[t] = r
+        return r
+    return lambda t: walk(t, frozenset())
+
+
 def match_known(pid, job, res, known):
-    """A known finding lists property, the diff kinds it explains and a classifier of the
-    failing history (see known_findings.jsonl).  Returns the entry or None."""
+    """A known finding lists the property, the diff kinds it explains and a machine-checkable
+    classifier of the failing history.  Returns the entry, or None (=> a new violation)."""
+    mine = [d for d in (res.get('diffs') or []) if d['kind'] in KINDS.get(pid, [])]
+    ks = set(kinds_of(res)) & set(KINDS.get(pid, []))
     for k in known:
-        if k.get('property') != pid or k.get('status') == 'fixed':
+        if k.get('property') != pid or k.get('status') != 'known':
             continue
-        ks = set(kinds_of(res)) & set(KINDS.get(pid, []))
         if not ks or not ks <= set(k.get('kinds', [])):
             continue
         cl = k.get('classifier', {})
-        acts = [s['a'] for s in job['h']]
-        if 'needs_actions' in cl and not all(a in acts for a in cl['needs_actions']):
-            continue
         if 'mode' in cl and cl['mode'] != job.get('mode', ''):
             continue
+        if 'pending_accepted_how' in cl:
+            blame = pending_blame(job)
+            if not mine or not all(blame(d['what']) in cl['pending_accepted_how'] for d in mine):
+                continue
         if 'what_regex' in cl:
             import re
-            if not all(re.search(cl['what_regex'], d['what']) for d in res.get('diffs', []) if d['kind'] in ks):
+            if not all(re.search(cl['what_regex'], d['what']) for d in mine):
                 continue
         return k
     return None
@@ -122,7 +167,7 @@ def follower_check(pid, tier, scratch, replay, plan):
         transitions += r.get('generated', 0)
         mc_runs.append(dict(cfg=cfg, overrides=ov, distinct=r.get('distinct'), generated=r.get('generated'), wall_s=round(r['wall'], 1)))
     # 2. behaviours
-    jobs = regress_jobs(pid)
+    jobs = regress_jobs(pid, scratch)
     n_regress = len(jobs)
     gen_runs = []
     for g in plan['gens']:
@@ -218,17 +263,55 @@ def gen(cfg, module, quick, thorough, **kw):
 SIM = lambda num, depth, **ov: dict(simulate=dict(num=num, depth=depth + 1), overrides=dict({'GenDepth': str(depth), 'GenRandom': 'TRUE'}, **ov))
 EXH = lambda depth, sample, **ov: dict(overrides=dict({'GenDepth': str(depth)}, **ov), sample=sample)
 
+STAKE_X = {'minfrozen': 1}
+NBIND_X = {'minfrozen': 1, 'warmup': 1}
+P = {'GenPending': 'TRUE'}
+
 PLAN_C01 = dict(
     mc=dict(quick=[('MC_Sync.cfg', 'MC_Sync.tla', {'MaxBlocks': '6'})],
-            thorough=[('MC_Sync.cfg', 'MC_Sync.tla', {'MaxBlocks': '8'})]),
+            thorough=[('MC_Sync.cfg', 'MC_Sync.tla', {'MaxBlocks': '8'}),
+                      ('MC_Ledger.cfg', 'MC_Ledger.tla', {'MaxBlocks': '6'})]),
     gens=[gen('Gen_Pay.cfg', 'MC_Pay.tla',
-              quick=[SIM(160, 12)],
-              thorough=[EXH(6, 4000), SIM(1500, 14)])],
+              quick=[SIM(120, 12), SIM(60, 14, **P)],
+              thorough=[EXH(6, 4000), SIM(1500, 14), SIM(1500, 16, **P)]),
+          gen('Gen_Stake.cfg', 'MC_Stake.tla', universe_extra=STAKE_X,
+              quick=[SIM(60, 14)],
+              thorough=[SIM(1000, 16), SIM(500, 16, **P)]),
+          gen('Gen_NBind.cfg', 'MC_NBind.tla', universe_extra=NBIND_X,
+              quick=[SIM(40, 12)],
+              thorough=[SIM(600, 14)])],
+)
+
+PLAN_C09 = dict(
+    mc=dict(quick=[('MC_Ledger.cfg', 'MC_Ledger.tla', {'MaxBlocks': '5'})],
+            thorough=[('MC_Ledger.cfg', 'MC_Ledger.tla', {'MaxBlocks': '6', 'MaxQ': '3'})]),
+    gens=[gen('Gen_Pay.cfg', 'MC_Pay.tla',
+              quick=[SIM(160, 14, **P)],
+              thorough=[EXH(6, 3000, **P), SIM(2500, 16, **P)]),
+          gen('Gen_Stake.cfg', 'MC_Stake.tla', universe_extra=STAKE_X,
+              quick=[SIM(80, 14, **P)],
+              thorough=[SIM(1500, 16, **P)]),
+          gen('Gen_NBind.cfg', 'MC_NBind.tla', universe_extra=NBIND_X,
+              quick=[SIM(40, 12, **P)],
+              thorough=[SIM(600, 14, **P)])],
+    assume=['the transaction universes contain no stranger-owned inputs (a conflict on a stranger\'s coin is invisible to the wallet by construction)'],
+)
+
+PLAN_C10 = dict(
+    mc=dict(quick=[('MC_Ledger.cfg', 'MC_Ledger.tla', {'MaxBlocks': '5'})],
+            thorough=[('MC_Ledger.cfg', 'MC_Ledger.tla', {'MaxBlocks': '6'})]),
+    gens=[gen('Gen_Stake.cfg', 'MC_Stake.tla', universe_extra=STAKE_X,
+              quick=[SIM(120, 16), SIM(60, 16, **P)],
+              thorough=[EXH(6, 3000), SIM(2500, 18), SIM(1000, 18, **P)]),
+          gen('Gen_NBind.cfg', 'MC_NBind.tla', universe_extra=NBIND_X,
+              quick=[SIM(60, 12), SIM(30, 12, **P)],
+              thorough=[SIM(1000, 14), SIM(500, 14, **P)])],
+    assume=['withdrawals of new-style bindings are never mined: the pinned mass-core AddrIndexer cannot attach such a block (Amount.AddInt underflow); they occur as unconfirmed transactions only'],
 )
 
 
-def c01(pid, tier, scratch, replay):
-    return follower_check(pid, tier, scratch, replay, PLAN_C01)
+def plan_check(plan):
+    return lambda pid, tier, scratch, replay: follower_check(pid, tier, scratch, replay, plan)
 
 
-PROPS = {'C01': c01}
+PROPS = {'C01': plan_check(PLAN_C01), 'C09': plan_check(PLAN_C09), 'C10': plan_check(PLAN_C10)}
